@@ -6,7 +6,7 @@ from ..astutil import (U, dotted, get_class, get_method, methods, walk_local, is
                        enum_member, params, bind_args, all_functions)
 from ..cfg import CFG, calls_at
 from ..dataflow import ReachingDefs, node_of_expr
-from ..guards import call_nodes, dominating_edges, cmp_parts, edge_successors, is_none_test
+from ..guards import call_nodes, dominating_edges, cmp_parts, edge_successors, is_none_test, handler_catches
 from ..engmodel import EngineModel, ENGINE, CHOKE, LISTER, PIEOBJ
 from ..source import AnalysisError
 
@@ -700,5 +700,26 @@ def run(ctx):
               'returned identifiers are str(x.unique_identifier) of elements derived from the access-filtered list only',
               'Locate can return identifiers that do not come from the access-filtered list')
     check_policy_table_freshness(ctx)
+    # ---------------- R11 a handler around an access-controlled load treats "denied" and "absent" alike
+    ctx.rule('C03.R11', 'where a call of the access-control choke point sits inside a try, the except arm that answers ItemNotFound is the same arm that answers PermissionDenied (or neither is caught): otherwise a denied indirect load (e.g. the wrapping key of Get) is answered differently from an absent one and reveals that the object exists')
+    n_t = 0
+    for name, fn in sorted(m.methods.items()):
+        g11 = CFG(fn)
+        for n, c in call_nodes(g11, 'self.' + CHOKE):
+            if not n.tries:
+                continue
+            n_t += 1
+            def arm_for(exc):
+                for t in reversed(n.tries):
+                    for h in t.handlers:
+                        cc = handler_catches(h)
+                        if '*' in cc or any(x.split('.')[-1] in (exc, 'KmipError') for x in cc):
+                            return h
+                return None
+            a, b = arm_for('ItemNotFound'), arm_for('PermissionDenied')
+            ctx.check(a is b, 'C03.R11', 'KmipEngine.%s|denied-and-absent-same-arm' % name, m.site(c, fn), 'ItemNotFound and PermissionDenied of this load are handled by the same arm' if a is not None else 'neither is caught here',
+                      'ItemNotFound from this load is handled at line %s but PermissionDenied %s: the two outcomes reach the client with different reasons/messages' % (
+                          getattr(a, 'lineno', None), ('at line %s' % b.lineno) if b is not None else 'propagates unchanged'))
+    ctx.analysed['choke_point_calls_inside_try'] = n_t
     ctx.not_decided += ["SQLAlchemy filter(...).one() returning the row with that identifier", 'the content of operation policies at run time']
     ctx.assumptions += ['pie objects are only obtainable from the session (queries) or constructors', 'T_ACCESS_OP transcribes the property statement and the KMIP policy model']
